@@ -409,6 +409,19 @@ def boundary_cases(rng, caps):
                 if k % 3 == 1: pairs = [(lit('<'), None), pc, conv('%d', 'i%d' % n)]      # something after it: the next piece lands at pos + n
                 if k % 3 == 2: pairs = [conv('%s', 's' + hx(b'ab')), pc, ('P', None)]
                 out.append(build(pos, hx(init), pairs))
+    # whole formats of exactly n-1, n, n+1 bytes (the piece buffer is sized from strlen(fmt)): one literal run,
+    # a specification at the very end, a specification at the very start
+    for cap in caps:
+        if cap > 1100: continue
+        for n in (cap - 1, cap, cap + 1):
+            if n < 4: continue
+            word = lambda k: lit(''.join(chr(rng.randrange(97, 123)) for _ in range(k)))
+            for pairs in ([(word(n), None)],
+                          [(word(n - 2), None), conv('%d', 'i%d' % rng.randrange(-99, 100))],
+                          [(word(n - 3), None), conv('%ld', 'i%d' % gen_int(rng, I64MIN, I64MAX))],
+                          [conv('%s', 's' + hx(gen_str(rng).replace(b'\0', b''))), (word(n - 2), None)],
+                          [(word(n - 4), None), ('P', None), ('D', 'i%d' % rng.randrange(1000))]):
+                out.append(build(rng.choice([0, 2]), hx(b'xy'), pairs))
     return out
 
 
@@ -416,8 +429,8 @@ def staged_caps():
     caps = [16, 32, 64, 128, 256, 512, 1024, 4096]
     try:
         g = open(os.path.join(vlib.COQ, 'Generated.v')).read()
-        m = re.search(r'Definition string_fmt_stack_cap : nat := (\d+)', g)
-        if m and int(m.group(1)) > 0: caps.append(int(m.group(1)))
+        for m in re.finditer(r'Definition (?:string_fmt_stack_cap|print_buf_stack_cap) : nat := (\d+)', g):
+            if int(m.group(1)) > 0: caps.append(int(m.group(1)))
     except OSError:
         pass
     return sorted(set(caps))
@@ -470,7 +483,7 @@ def run(ctx):
         'int64 range incl. INT64_MIN/MAX for l/ll/j/z/t conversions, int range (unsigned: up to 2^32-1) otherwise, Float from a grid '
         '(zeros, denormals, DBL_MAX, infinities, rounding ties) and random bit patterns without NaN, String of 0-400 bytes, raw pointers '
         'for %p, Int/Float/String/Array/List/Tuple/Table for %$; start positions 0..length and beyond; too few / too many arguments; plus single pieces whose text is exactly n-1, n, n+1 bytes for n = 16..4096 '
-        '(powers of two) and the stack-buffer size read from String_Format_To. '
+        '(powers of two) and the stack-buffer sizes read from String_Format_To / print_to_with, and whole formats of exactly n-1, n, n+1 bytes. '
         'Per case three runs of print_to_with (heap String, File, recording sink) are compared with the reference: per item, libc '
         'snprintf of that ONE specification with the C value the property assigns (a whole-format printf is the concatenation, '
         'directives being independent; cross-checked by one snprintf call on the whole format whenever all its specifications take '
